@@ -381,7 +381,9 @@ def correspond(ck: Check, drv, case, obs):
         op = "rfwd" if kind == "ratio" else "dfwd"
         k0 = "" if kind == "ratio" else " 0"
         h_m = [Fraction(v) for v in drv.ask(f"{op} R {n} {tr}{k0} | {s_s} | {x_s}").split()]
-        exact = G.exact_ok(h_m)
+        # exact only when the sampling times themselves are short dyadics: since sampling_times are kept in the
+        # dtype of the heights (float64) a decimal date makes the float64 subtractions round
+        exact = G.exact_ok(h_m) and G.exact_ok(leaf_m)
         ck.bucket("forward/exact" if exact else "forward/tolerance")
         if len(h_m) != n - 1:
             mm("forward length", len(h_impl), len(h_m))
